@@ -113,7 +113,7 @@ def generate(rng, tier):
     if tier == "quick":
         nR, nT, nP = 1200, 150, 420
     elif tier == "thorough":
-        nR, nT, nP = 30000, 2000, 6000
+        nR, nT, nP = 20000, 2000, 3000
     else:
         nR, nT, nP = 10000, 800, 3000
     for c in L.exhaustive_r():
